@@ -153,6 +153,9 @@ def run(item, ctx, tier, seed):
                         for method in ("linear", "lower", "higher"):
                             pairs.append((f"threshold_at_{st}[{method}]",
                                           lambda o, st=st, method=method: getattr(o, "threshold_at_" + st)(tg, method=method)))
+                    pairs.append(("eq(Scores)", lambda o: bool(o == ref)))
+                    pairs.append(("Scores.eq", lambda o: bool(ref == o)))
+                    pairs.append(("ne(Scores)", lambda o: bool(o != Scores(pos=g_in, neg=[0.5] + list(f_in)))))
                     pairs.append(("eer", lambda o: np.array(o.eer())))
                     pairs.append(("auc", lambda o: o.auc()))
                     pairs.append(("auc.partial", lambda o: o.auc(0.25, 0.75)))
@@ -178,5 +181,26 @@ def run(item, ctx, tier, seed):
                                               f"s = Scores({gen!r}, {fra!r}, nb_easy_pos={ep}, nb_easy_neg={en}, "
                                               f"score_class={'pos' if sc == 'genuine' else 'neg'!r}, equal_class='pos')\n"
                                               f"# query: {name}\n"))
+    # the caller reuses its (already sorted) input arrays after construction: FraudScores must react exactly like
+    # the equivalent Scores object built from the same arrays (both hold their own copies)
+    valid = [v for v in gen if 0 <= v <= 1]
+    if len(valid) >= 1:
+        for sc in b["score_class"]:
+            ga, fa = np.array(sorted(valid), dtype=float), np.array(sorted([0.25, 0.5, 0.75][: max(1, len(valid))]), dtype=float)
+            try:
+                fs = FraudScores(genuines=ga, frauds=fa, score_class=sc)
+                ref = Scores(pos=ga, neg=fa, score_class="pos" if sc == "genuine" else "neg", equal_class="pos")
+            except Exception as e:  # noqa
+                ctx.fail("unexpected-exception:construct", {"genuines": valid, "score_class": sc}, observed=repr(e), expected="object")
+                continue
+            ga[...] = 1.0 - ga
+            fa[...] = fa[::-1] * 0.5
+            T = np.array(QUERIES_T)
+            ctx.state()
+            ctx.tick()
+            if not (_eq(fs.cm(T).matrix, ref.cm(T).matrix) and _eq(fs.pos, ref.pos) and _eq(fs.neg, ref.neg)):
+                ctx.fail("query-identical-to-scores", {"genuines": valid, "score_class": sc,
+                                                       "history": "caller overwrote its sorted input arrays after construction"},
+                         observed=[fs.pos, fs.neg], expected=[ref.pos, ref.neg])
     ctx.sample({"genuines": gen, "fraud_multisets": len(ms), "score_class": b["score_class"], "easy": b["easy"]})
     return None
